@@ -125,7 +125,7 @@ func hookOf(tok string) string {
 }
 
 // classify names the clause broken at the first difference of the traces.
-func classify(exp, why, obs []string, r refResult, disabled bool, hooks []hx.HookSpec) (clause, detail string) {
+func classify(exp, why, obs []string, r refResult, disabled bool, hooks []hx.HookSpec, opKind string) (clause, detail string) {
 	i := 0
 	for i < len(exp) && i < len(obs) && exp[i] == obs[i] {
 		i++
@@ -149,9 +149,37 @@ func classify(exp, why, obs []string, r refResult, disabled bool, hooks []hx.Hoo
 		return "?"
 	}
 	ev, ov := verbOf(e), verbOf(o)
+	// sequences of hooks in creation order, expected and observed
+	posts := func(tr []string) (out []string) {
+		for _, t := range tr {
+			if verbOf(t) == "POST" {
+				out = append(out, hookOf(t))
+			}
+		}
+		return
+	}
+	pe, po := posts(exp), posts(obs)
+	reordered := false
+	for k := 0; k < len(pe) && k < len(po); k++ {
+		if pe[k] != po[k] {
+			reordered = true
+			break
+		}
+	}
 	switch {
 	case disabled && ov != "RES" && ov != "READY" && o != "<end>":
 		return "disabled", "hook-request-with-hooks-disabled"
+	case ov == "POST" && !disabled:
+		// a hook that is attached to neither event of this operation
+		for _, h := range hooks {
+			if h.Name == hookOf(o) && !has(h.Events, "pre-"+eventOf[opKind]) && !has(h.Events, "post-"+eventOf[opKind]) {
+				return "selection", "hook-of-another-operation-ran"
+			}
+		}
+	}
+	switch {
+	case reordered:
+		return "order", "hooks-created-in-wrong-order"
 	case e == "<end>" && r.Failed && r.Phase == "pre" && (ov == "RES" || ov == "READY"):
 		return "gate", "release-resources-touched-after-pre-hook-failure"
 	case e == "<end>" && r.Failed && ov == "POST":
@@ -244,7 +272,7 @@ func check(c *core.Ctx, t *opspace.Transition) {
 	violate := func(clause, detail, what string) {
 		lastBad = t
 		key := core.SanitizeKey(fmt.Sprintf("%s|%s|%s", clause, detail, opName(op)))
-		if clause == "order" || clause == "policy" || clause == "sequential" || clause == "create" {
+		if clause == "order" || clause == "policy" || clause == "sequential" || clause == "create" || clause == "selection" {
 			key = core.SanitizeKey(fmt.Sprintf("%s|%s", clause, detail)) // execHook is shared by all operations
 		}
 		c.Violate(prop, key, fmt.Sprintf("%s/%s: %s [driver=%s init=%s history=%v expected=%v observed=%v err=%q]", clause, detail, what, t.Driver, t.Init, hist, exp, obs, res.Err),
@@ -326,7 +354,7 @@ func check(c *core.Ctx, t *opspace.Transition) {
 	}
 	// clauses on the ordered trace
 	if strings.Join(exp, ";") != strings.Join(obs, ";") {
-		clause, detail := classify(exp, why, obs, r, op.DisableHooks, hooks)
+		clause, detail := classify(exp, why, obs, r, op.DisableHooks, hooks, op.Kind)
 		if !(clause == "disabled" && op.DisableHooks && len(hookReqs) > 0) {
 			violate(clause, detail, "request log differs from the reference trace")
 		}
